@@ -29,6 +29,47 @@ impl Clone for Expr {
     { unimplemented!() }
 }
 
+/// operands of a node, in the order `for_each_child` (foreach.rs) visits them
+pub open spec fn kids(n: Expr) -> Seq<ExprRef> {
+    match n {
+        Expr::BVSymbol { name, width } => seq![],
+        Expr::BVLiteral(l) => seq![],
+        Expr::BVZeroExt { e, by, width } => seq![e],
+        Expr::BVSignExt { e, by, width } => seq![e],
+        Expr::BVSlice { e, hi, lo } => seq![e],
+        Expr::BVNot(e, w) => seq![e],
+        Expr::BVNegate(e, w) => seq![e],
+        Expr::BVEqual(a, b) => seq![a, b],
+        Expr::BVImplies(a, b) => seq![a, b],
+        Expr::BVGreater(a, b) => seq![a, b],
+        Expr::BVGreaterSigned(a, b, w) => seq![a, b],
+        Expr::BVGreaterEqual(a, b) => seq![a, b],
+        Expr::BVGreaterEqualSigned(a, b, w) => seq![a, b],
+        Expr::BVConcat(a, b, w) => seq![a, b],
+        Expr::BVAnd(a, b, w) => seq![a, b],
+        Expr::BVOr(a, b, w) => seq![a, b],
+        Expr::BVXor(a, b, w) => seq![a, b],
+        Expr::BVShiftLeft(a, b, w) => seq![a, b],
+        Expr::BVArithmeticShiftRight(a, b, w) => seq![a, b],
+        Expr::BVShiftRight(a, b, w) => seq![a, b],
+        Expr::BVAdd(a, b, w) => seq![a, b],
+        Expr::BVMul(a, b, w) => seq![a, b],
+        Expr::BVSignedDiv(a, b, w) => seq![a, b],
+        Expr::BVUnsignedDiv(a, b, w) => seq![a, b],
+        Expr::BVSignedMod(a, b, w) => seq![a, b],
+        Expr::BVSignedRem(a, b, w) => seq![a, b],
+        Expr::BVUnsignedRem(a, b, w) => seq![a, b],
+        Expr::BVSub(a, b, w) => seq![a, b],
+        Expr::BVArrayRead { array, index, width } => seq![array, index],
+        Expr::BVIte { cond, tru, fals } => seq![cond, tru, fals],
+        Expr::ArraySymbol { name, index_width, data_width } => seq![],
+        Expr::ArrayConstant { e, index_width, data_width } => seq![e],
+        Expr::ArrayEqual(a, b) => seq![a, b],
+        Expr::ArrayStore { array, index, data } => seq![array, index, data],
+        Expr::ArrayIte { cond, tru, fals } => seq![cond, tru, fals],
+    }
+}
+
 #[verifier::external_body]
 pub struct Context { _p: u8 }
 
@@ -72,74 +113,136 @@ impl Context {
         }
     }
 
-    /// node-level typing rule (types.rs `type_check`, stated over `ty`), children present and older,
-    /// and one-step unfolding of the denotation
-    pub open spec fn node_ok(&self, r: ExprRef) -> bool {
-        &&& self.den_sorted(r)
-        &&& match self.nodes()[r] {
-            Expr::BVSymbol { name, width } => self.ty(r) == Type::BV(width) && self.den(r) == d_sym(name.0 as int, true, width as int, 0),
-            Expr::BVLiteral(l) => self.ty(r) == Type::BV(l.0.width) && self.lit_interned(l) && v_fits(l.0.width as int, self.lit_v(l))
-                && self.den(r) == d_lit(l.0.width as int, self.lit_v(l)),
-            Expr::BVZeroExt { e, by, width } => self.is_bv(e) && e.0 < r.0 && width == self.w(e) + by && self.ty(r) == Type::BV(width)
-                && self.den(r) == d_zext(self.den(e), by as int),
-            Expr::BVSignExt { e, by, width } => self.is_bv(e) && e.0 < r.0 && width == self.w(e) + by && self.ty(r) == Type::BV(width)
-                && self.den(r) == d_sext(self.den(e), by as int),
-            Expr::BVSlice { e, hi, lo } => self.is_bv(e) && e.0 < r.0 && lo <= hi && hi < self.w(e) && self.ty(r) == Type::BV((hi - lo + 1) as u32)
-                && self.den(r) == d_slice(self.den(e), hi as int, lo as int),
-            Expr::BVNot(e, w) => self.bv(e, w) && e.0 < r.0 && self.ty(r) == Type::BV(w) && self.den(r) == d_not(self.den(e)),
-            Expr::BVNegate(e, w) => self.bv(e, w) && e.0 < r.0 && self.ty(r) == Type::BV(w) && self.den(r) == d_neg(self.den(e)),
-            Expr::BVEqual(a, b) => self.is_bv(a) && self.is_bv(b) && a.0 < r.0 && b.0 < r.0 && self.w(a) == self.w(b) && self.ty(r) == Type::BV(1)
-                && self.den(r) == d_eq(self.den(a), self.den(b)),
-            Expr::BVImplies(a, b) => self.bv(a, 1) && self.bv(b, 1) && a.0 < r.0 && b.0 < r.0 && self.ty(r) == Type::BV(1)
-                && self.den(r) == d_implies(self.den(a), self.den(b)),
-            Expr::BVGreater(a, b) => self.is_bv(a) && self.is_bv(b) && a.0 < r.0 && b.0 < r.0 && self.w(a) == self.w(b) && self.ty(r) == Type::BV(1)
-                && self.den(r) == d_ugt(self.den(a), self.den(b)),
-            Expr::BVGreaterSigned(a, b, w) => self.bv(a, w) && self.bv(b, w) && a.0 < r.0 && b.0 < r.0 && self.ty(r) == Type::BV(1)
-                && self.den(r) == d_sgt(self.den(a), self.den(b)),
-            Expr::BVGreaterEqual(a, b) => self.is_bv(a) && self.is_bv(b) && a.0 < r.0 && b.0 < r.0 && self.w(a) == self.w(b) && self.ty(r) == Type::BV(1)
-                && self.den(r) == d_uge(self.den(a), self.den(b)),
-            Expr::BVGreaterEqualSigned(a, b, w) => self.bv(a, w) && self.bv(b, w) && a.0 < r.0 && b.0 < r.0 && self.ty(r) == Type::BV(1)
-                && self.den(r) == d_sge(self.den(a), self.den(b)),
-            Expr::BVConcat(a, b, w) => self.is_bv(a) && self.is_bv(b) && a.0 < r.0 && b.0 < r.0 && w == self.w(a) + self.w(b) && self.ty(r) == Type::BV(w)
-                && self.den(r) == d_concat(self.den(a), self.den(b)),
-            Expr::BVAnd(a, b, w) => self.bin_ok(r, a, b, w) && self.den(r) == d_and(self.den(a), self.den(b)),
-            Expr::BVOr(a, b, w) => self.bin_ok(r, a, b, w) && self.den(r) == d_or(self.den(a), self.den(b)),
-            Expr::BVXor(a, b, w) => self.bin_ok(r, a, b, w) && self.den(r) == d_xor(self.den(a), self.den(b)),
-            Expr::BVShiftLeft(a, b, w) => self.bin_ok(r, a, b, w) && self.den(r) == d_shl(self.den(a), self.den(b)),
-            Expr::BVArithmeticShiftRight(a, b, w) => self.bin_ok(r, a, b, w) && self.den(r) == d_ashr(self.den(a), self.den(b)),
-            Expr::BVShiftRight(a, b, w) => self.bin_ok(r, a, b, w) && self.den(r) == d_lshr(self.den(a), self.den(b)),
-            Expr::BVAdd(a, b, w) => self.bin_ok(r, a, b, w) && self.den(r) == d_add(self.den(a), self.den(b)),
-            Expr::BVMul(a, b, w) => self.bin_ok(r, a, b, w) && self.den(r) == d_mul(self.den(a), self.den(b)),
-            Expr::BVSignedDiv(a, b, w) => self.bin_ok(r, a, b, w) && self.den(r) == d_sdiv(self.den(a), self.den(b)),
-            Expr::BVUnsignedDiv(a, b, w) => self.bin_ok(r, a, b, w) && self.den(r) == d_udiv(self.den(a), self.den(b)),
-            Expr::BVSignedMod(a, b, w) => self.bin_ok(r, a, b, w) && self.den(r) == d_smod(self.den(a), self.den(b)),
-            Expr::BVSignedRem(a, b, w) => self.bin_ok(r, a, b, w) && self.den(r) == d_srem(self.den(a), self.den(b)),
-            Expr::BVUnsignedRem(a, b, w) => self.bin_ok(r, a, b, w) && self.den(r) == d_urem(self.den(a), self.den(b)),
-            Expr::BVSub(a, b, w) => self.bin_ok(r, a, b, w) && self.den(r) == d_sub(self.den(a), self.den(b)),
-            Expr::BVArrayRead { array, index, width } => self.is_arr(array) && array.0 < r.0 && index.0 < r.0
-                && self.bv(index, self.aty(array).index_width) && width == self.aty(array).data_width && self.ty(r) == Type::BV(width)
-                && self.den(r) == d_select(self.den(array), self.den(index)),
-            Expr::BVIte { cond, tru, fals } => self.bv(cond, 1) && self.is_bv(tru) && self.is_bv(fals) && cond.0 < r.0 && tru.0 < r.0 && fals.0 < r.0
-                && self.ty(tru) == self.ty(fals) && self.ty(r) == self.ty(fals)
-                && self.den(r) == d_ite(self.den(cond), self.den(tru), self.den(fals)),
-            Expr::ArraySymbol { name, index_width, data_width } => self.ty(r) == Type::Array(ArrayType { index_width, data_width })
-                && self.den(r) == d_sym(name.0 as int, false, data_width as int, index_width as int),
-            Expr::ArrayConstant { e, index_width, data_width } => self.bv(e, data_width) && e.0 < r.0
-                && self.ty(r) == Type::Array(ArrayType { index_width, data_width })
-                && self.den(r) == d_const_array(index_width as int, self.den(e)),
-            Expr::ArrayEqual(a, b) => self.is_arr(a) && self.is_arr(b) && a.0 < r.0 && b.0 < r.0 && self.ty(a) == self.ty(b) && self.ty(r) == Type::BV(1)
-                && self.den(r) == d_array_eq(self.den(a), self.den(b)),
-            Expr::ArrayStore { array, index, data } => self.is_arr(array) && array.0 < r.0 && index.0 < r.0 && data.0 < r.0
-                && self.bv(index, self.aty(array).index_width) && self.bv(data, self.aty(array).data_width) && self.ty(r) == self.ty(array)
-                && self.den(r) == d_store(self.den(array), self.den(index), self.den(data)),
-            Expr::ArrayIte { cond, tru, fals } => self.bv(cond, 1) && self.is_arr(tru) && self.is_arr(fals) && cond.0 < r.0 && tru.0 < r.0 && fals.0 < r.0
-                && self.ty(tru) == self.ty(fals) && self.ty(r) == self.ty(fals)
-                && self.den(r) == d_ite(self.den(cond), self.den(tru), self.den(fals)),
+    /// node-level typing rule of a node *value* (types.rs `type_check`, stated over `ty`); children must be present
+    pub open spec fn node_typed(&self, n: Expr) -> bool {
+        match n {
+            Expr::BVSymbol { name, width } => width >= 1,
+            Expr::BVLiteral(l) => l.0.width >= 1 && self.lit_interned(l) && v_fits(l.0.width as int, self.lit_v(l)),
+            Expr::BVZeroExt { e, by, width } => self.is_bv(e) && width == self.w(e) + by,
+            Expr::BVSignExt { e, by, width } => self.is_bv(e) && width == self.w(e) + by,
+            Expr::BVSlice { e, hi, lo } => self.is_bv(e) && lo <= hi && hi < self.w(e),
+            Expr::BVNot(e, w) => self.bv(e, w),
+            Expr::BVNegate(e, w) => self.bv(e, w),
+            Expr::BVEqual(a, b) => self.is_bv(a) && self.is_bv(b) && self.w(a) == self.w(b),
+            Expr::BVImplies(a, b) => self.bv(a, 1) && self.bv(b, 1),
+            Expr::BVGreater(a, b) => self.is_bv(a) && self.is_bv(b) && self.w(a) == self.w(b),
+            Expr::BVGreaterSigned(a, b, w) => self.bv(a, w) && self.bv(b, w),
+            Expr::BVGreaterEqual(a, b) => self.is_bv(a) && self.is_bv(b) && self.w(a) == self.w(b),
+            Expr::BVGreaterEqualSigned(a, b, w) => self.bv(a, w) && self.bv(b, w),
+            Expr::BVConcat(a, b, w) => self.is_bv(a) && self.is_bv(b) && w == self.w(a) + self.w(b),
+            Expr::BVAnd(a, b, w) => self.bv(a, w) && self.bv(b, w),
+            Expr::BVOr(a, b, w) => self.bv(a, w) && self.bv(b, w),
+            Expr::BVXor(a, b, w) => self.bv(a, w) && self.bv(b, w),
+            Expr::BVShiftLeft(a, b, w) => self.bv(a, w) && self.bv(b, w),
+            Expr::BVArithmeticShiftRight(a, b, w) => self.bv(a, w) && self.bv(b, w),
+            Expr::BVShiftRight(a, b, w) => self.bv(a, w) && self.bv(b, w),
+            Expr::BVAdd(a, b, w) => self.bv(a, w) && self.bv(b, w),
+            Expr::BVMul(a, b, w) => self.bv(a, w) && self.bv(b, w),
+            Expr::BVSignedDiv(a, b, w) => self.bv(a, w) && self.bv(b, w),
+            Expr::BVUnsignedDiv(a, b, w) => self.bv(a, w) && self.bv(b, w),
+            Expr::BVSignedMod(a, b, w) => self.bv(a, w) && self.bv(b, w),
+            Expr::BVSignedRem(a, b, w) => self.bv(a, w) && self.bv(b, w),
+            Expr::BVUnsignedRem(a, b, w) => self.bv(a, w) && self.bv(b, w),
+            Expr::BVSub(a, b, w) => self.bv(a, w) && self.bv(b, w),
+            Expr::BVArrayRead { array, index, width } => self.is_arr(array) && self.bv(index, self.aty(array).index_width) && width == self.aty(array).data_width,
+            Expr::BVIte { cond, tru, fals } => self.bv(cond, 1) && self.is_bv(tru) && self.is_bv(fals) && self.ty(tru) == self.ty(fals),
+            Expr::ArraySymbol { name, index_width, data_width } => index_width >= 1 && data_width >= 1,
+            Expr::ArrayConstant { e, index_width, data_width } => self.bv(e, data_width) && index_width >= 1,
+            Expr::ArrayEqual(a, b) => self.is_arr(a) && self.is_arr(b) && self.ty(a) == self.ty(b),
+            Expr::ArrayStore { array, index, data } => self.is_arr(array) && self.bv(index, self.aty(array).index_width) && self.bv(data, self.aty(array).data_width),
+            Expr::ArrayIte { cond, tru, fals } => self.bv(cond, 1) && self.is_arr(tru) && self.is_arr(fals) && self.ty(tru) == self.ty(fals),
         }
     }
 
-    pub open spec fn bin_ok(&self, r: ExprRef, a: ExprRef, b: ExprRef, w: WidthInt) -> bool {
-        self.bv(a, w) && self.bv(b, w) && a.0 < r.0 && b.0 < r.0 && self.ty(r) == Type::BV(w)
+    /// type of a well-typed node value (types.rs `get_type`; the ite/store recursion is `ty` of the child)
+    pub open spec fn node_ty(&self, n: Expr) -> Type {
+        match n {
+            Expr::BVSymbol { name, width } => Type::BV(width),
+            Expr::BVLiteral(l) => Type::BV(l.0.width),
+            Expr::BVZeroExt { e, by, width } => Type::BV(width),
+            Expr::BVSignExt { e, by, width } => Type::BV(width),
+            Expr::BVSlice { e, hi, lo } => Type::BV((hi - lo + 1) as u32),
+            Expr::BVNot(e, w) => Type::BV(w),
+            Expr::BVNegate(e, w) => Type::BV(w),
+            Expr::BVEqual(a, b) => Type::BV(1),
+            Expr::BVImplies(a, b) => Type::BV(1),
+            Expr::BVGreater(a, b) => Type::BV(1),
+            Expr::BVGreaterSigned(a, b, w) => Type::BV(1),
+            Expr::BVGreaterEqual(a, b) => Type::BV(1),
+            Expr::BVGreaterEqualSigned(a, b, w) => Type::BV(1),
+            Expr::BVConcat(a, b, w) => Type::BV(w),
+            Expr::BVAnd(a, b, w) => Type::BV(w),
+            Expr::BVOr(a, b, w) => Type::BV(w),
+            Expr::BVXor(a, b, w) => Type::BV(w),
+            Expr::BVShiftLeft(a, b, w) => Type::BV(w),
+            Expr::BVArithmeticShiftRight(a, b, w) => Type::BV(w),
+            Expr::BVShiftRight(a, b, w) => Type::BV(w),
+            Expr::BVAdd(a, b, w) => Type::BV(w),
+            Expr::BVMul(a, b, w) => Type::BV(w),
+            Expr::BVSignedDiv(a, b, w) => Type::BV(w),
+            Expr::BVUnsignedDiv(a, b, w) => Type::BV(w),
+            Expr::BVSignedMod(a, b, w) => Type::BV(w),
+            Expr::BVSignedRem(a, b, w) => Type::BV(w),
+            Expr::BVUnsignedRem(a, b, w) => Type::BV(w),
+            Expr::BVSub(a, b, w) => Type::BV(w),
+            Expr::BVArrayRead { array, index, width } => Type::BV(width),
+            Expr::BVIte { cond, tru, fals } => self.ty(fals),
+            Expr::ArraySymbol { name, index_width, data_width } => Type::Array(ArrayType { index_width, data_width }),
+            Expr::ArrayConstant { e, index_width, data_width } => Type::Array(ArrayType { index_width, data_width }),
+            Expr::ArrayEqual(a, b) => Type::BV(1),
+            Expr::ArrayStore { array, index, data } => self.ty(array),
+            Expr::ArrayIte { cond, tru, fals } => self.ty(fals),
+        }
+    }
+
+    /// one-step unfolding of the denotation: the SMT-LIB operator of the node applied to the denotations of its children
+    pub open spec fn node_den(&self, n: Expr) -> Den {
+        match n {
+            Expr::BVSymbol { name, width } => d_sym(name.0 as int, true, width as int, 0),
+            Expr::BVLiteral(l) => d_lit(l.0.width as int, self.lit_v(l)),
+            Expr::BVZeroExt { e, by, width } => d_zext(self.den(e), by as int),
+            Expr::BVSignExt { e, by, width } => d_sext(self.den(e), by as int),
+            Expr::BVSlice { e, hi, lo } => d_slice(self.den(e), hi as int, lo as int),
+            Expr::BVNot(e, w) => d_not(self.den(e)),
+            Expr::BVNegate(e, w) => d_neg(self.den(e)),
+            Expr::BVEqual(a, b) => d_eq(self.den(a), self.den(b)),
+            Expr::BVImplies(a, b) => d_implies(self.den(a), self.den(b)),
+            Expr::BVGreater(a, b) => d_ugt(self.den(a), self.den(b)),
+            Expr::BVGreaterSigned(a, b, w) => d_sgt(self.den(a), self.den(b)),
+            Expr::BVGreaterEqual(a, b) => d_uge(self.den(a), self.den(b)),
+            Expr::BVGreaterEqualSigned(a, b, w) => d_sge(self.den(a), self.den(b)),
+            Expr::BVConcat(a, b, w) => d_concat(self.den(a), self.den(b)),
+            Expr::BVAnd(a, b, w) => d_and(self.den(a), self.den(b)),
+            Expr::BVOr(a, b, w) => d_or(self.den(a), self.den(b)),
+            Expr::BVXor(a, b, w) => d_xor(self.den(a), self.den(b)),
+            Expr::BVShiftLeft(a, b, w) => d_shl(self.den(a), self.den(b)),
+            Expr::BVArithmeticShiftRight(a, b, w) => d_ashr(self.den(a), self.den(b)),
+            Expr::BVShiftRight(a, b, w) => d_lshr(self.den(a), self.den(b)),
+            Expr::BVAdd(a, b, w) => d_add(self.den(a), self.den(b)),
+            Expr::BVMul(a, b, w) => d_mul(self.den(a), self.den(b)),
+            Expr::BVSignedDiv(a, b, w) => d_sdiv(self.den(a), self.den(b)),
+            Expr::BVUnsignedDiv(a, b, w) => d_udiv(self.den(a), self.den(b)),
+            Expr::BVSignedMod(a, b, w) => d_smod(self.den(a), self.den(b)),
+            Expr::BVSignedRem(a, b, w) => d_srem(self.den(a), self.den(b)),
+            Expr::BVUnsignedRem(a, b, w) => d_urem(self.den(a), self.den(b)),
+            Expr::BVSub(a, b, w) => d_sub(self.den(a), self.den(b)),
+            Expr::BVArrayRead { array, index, width } => d_select(self.den(array), self.den(index)),
+            Expr::BVIte { cond, tru, fals } => d_ite(self.den(cond), self.den(tru), self.den(fals)),
+            Expr::ArraySymbol { name, index_width, data_width } => d_sym(name.0 as int, false, data_width as int, index_width as int),
+            Expr::ArrayConstant { e, index_width, data_width } => d_const_array(index_width as int, self.den(e)),
+            Expr::ArrayEqual(a, b) => d_array_eq(self.den(a), self.den(b)),
+            Expr::ArrayStore { array, index, data } => d_store(self.den(array), self.den(index), self.den(data)),
+            Expr::ArrayIte { cond, tru, fals } => d_ite(self.den(cond), self.den(tru), self.den(fals)),
+        }
+    }
+
+    /// a node's type, denotation and sort are those of its node value; its children are older (DAG order)
+    pub open spec fn node_ok(&self, r: ExprRef) -> bool {
+        &&& self.den_sorted(r)
+        &&& self.node_typed(self.nodes()[r])
+        &&& self.ty(r) == self.node_ty(self.nodes()[r])
+        &&& self.den(r) == self.node_den(self.nodes()[r])
+        &&& forall|i: int| 0 <= i < kids(self.nodes()[r]).len() ==> (#[trigger] kids(self.nodes()[r])[i]).0 < r.0
     }
 
     /// every node is well-typed and denotes what its operator says.  Opaque: the quantifier is only opened by
@@ -194,6 +297,17 @@ impl Context {
         proof { if self.wf() { self.lemma_node_ok(e); } }
         self.node_raw(e)
     }
+}
+
+/// `n` may stand for `o`: present, same type, same denotation
+pub open spec fn same(ctx: &Context, n: ExprRef, o: ExprRef) -> bool {
+    ctx.has(n) && ctx.ty(n) == ctx.ty(o) && ctx.den(n) == ctx.den(o)
+}
+
+/// `children` are element-wise interchangeable with the operands of node `e`
+pub open spec fn same_kids(ctx: &Context, children: Seq<ExprRef>, e: ExprRef) -> bool {
+    &&& children.len() == kids(ctx.nodes()[e]).len()
+    &&& forall|i: int| 0 <= i < children.len() ==> same(ctx, #[trigger] children[i], kids(ctx.nodes()[e])[i])
 }
 
 /// postcondition shared by the node-creating builders: frame, invariant, and the node that `r` now denotes
